@@ -141,6 +141,9 @@ def run(prop, tier, seed, replay):
         for ci in range(n_cases):
             B = [1, 1, 2, 3, 6][ci % 5]
             M = rng.choice([1, 2, 5])
+            if ci % 4 == 3:
+                M = B                       # as many jackknife samples as bins: a square sample matrix
+                ck.count("text:square-sample-matrix")
             binning = G.rand_binning(rng, B)
             cls = [CorrData, RedshiftData, HistData][ci % 3]
             mag = rng.choice([1e-9, 1e-3, 1.0, 1.0, 123.456, 1e5, 1e8, 1e11])
